@@ -200,29 +200,69 @@ class Check:
         build_all(models, targets=["Props/%s.vo" % self.pid])
         self.models = models
 
-    def props(self, extra_files=()):
-        """Compile Props/<pid>.v afresh; every Theorem there is an obligation."""
-        src = os.path.join(COQ, "Props", self.pid + ".v")
+    def make_soft(self, target):
+        """Build one more target of the Coq development; returns (ok, log) instead of aborting.
+        For obligations that depend on files REGENERATED from /repo (translator output)."""
+        lock = open(os.path.join(COQ, ".lock"), "w")
+        fcntl.flock(lock, fcntl.LOCK_EX)
+        try:
+            files = vfiles()
+            proj = "-Q . AV\n-arg -w -arg -notation-overridden,-deprecated,-non-recursive\n" + "\n".join(files) + "\n"
+            pj = os.path.join(COQ, "_CoqProject")
+            if open(pj).read() != proj:
+                open(pj, "w").write(proj)
+                sh("coq_makefile -f _CoqProject -o Makefile", 120, cwd=COQ)
+            rc, o = sh("timeout 1500 make -j8 %s 2>&1" % target, 1600, cwd=COQ)
+            return rc == 0, o[-3000:]
+        finally:
+            fcntl.flock(lock, fcntl.LOCK_UN)
+            lock.close()
+
+    def props(self, name=None, soft=False):
+        """Compile Props/<name or pid>.v afresh; every Theorem there is an obligation.
+        soft=True: a failure is remembered (self.soft_broken) instead of reported at once, so that the
+        check can first search for a concrete failing input; call resolve_soft() at the end."""
+        name = name or self.pid
+        if soft:
+            real_broken = self.broken_obligation
+            self.soft_broken = getattr(self, "soft_broken", [])
+            self.broken_obligation = lambda what, detail="": self.soft_broken.append((what, detail))
+            try:
+                return self._props(name)
+            finally:
+                self.broken_obligation = real_broken
+        return self._props(name)
+
+    def resolve_soft(self):
+        """After the search for a failing input: a broken (soft) obligation with no concrete violation
+        found is still a violation, reported with no-failing-input-found."""
+        for what, detail in getattr(self, "soft_broken", []):
+            if not self.violations:
+                self.broken_obligation(what, detail)
+            else:
+                self.cov.setdefault("broken_obligations_with_input_found", []).append(what)
+
+    def _props(self, name):
+        src = os.path.join(COQ, "Props", name + ".v")
         txt = comment_free(open(src).read())
         thms = re.findall(r"^\s*Theorem\s+([\w']+)", txt, re.M)
         prints = re.findall(r"^\s*Print\s+Assumptions\s+([\w']+)", txt, re.M)
         body_ok = True
         # the Props file may contain only Theorem ... Proof. exact ... Qed. and Print Assumptions (+ imports, Examples)
         if set(thms) - set(prints):
-            raise CheckAbort("Props/%s.v: theorems without Print Assumptions: %s" % (self.pid, sorted(set(thms) - set(prints))))
-        cmd = "timeout 600 coqc -Q . AV -w -notation-overridden,-deprecated Props/%s.v -o Run/out/chk/%s.vo" % (self.pid, self.pid)
+            raise CheckAbort("Props/%s.v: theorems without Print Assumptions: %s" % (name, sorted(set(thms) - set(prints))))
+        cmd = "timeout 600 coqc -Q . AV -w -notation-overridden,-deprecated Props/%s.v -o Run/out/chk/%s.vo" % (name, name)
         os.makedirs(os.path.join(OUT, "chk"), exist_ok=True)
         rc, out = sh(cmd, 650, cwd=COQ)
-        self.cov["checker_cmd"] = "cd /verif/coq && make (full .vo build, coqc 8.16.1) && " + cmd
-        self.cov["obligations"] = len(thms)
+        self.cov["checker_cmd"] = (self.cov["checker_cmd"] + " ; " if self.cov["checker_cmd"] else "cd /verif/coq && make (full .vo build, coqc 8.16.1) && ") + cmd
+        self.cov["obligations"] += len(thms)
         if rc:
-            self.cov["discharged"] = 0
-            self.broken_obligation("Props/%s.v does not compile" % self.pid, out[-3000:])
-            return
+            self.broken_obligation("Props/%s.v does not compile (theorems %s no longer check)" % (name, ", ".join(thms)), out[-3000:])
+            return False
         blocks = parse_assumptions(out)
         if len(blocks) != len(prints):
             self.broken_obligation("Print Assumptions blocks %d != expected %d" % (len(blocks), len(prints)), out[-3000:])
-            return
+            return False
         disc = 0
         axioms_used = set()
         for name, ax in zip(prints, blocks):
@@ -234,11 +274,12 @@ class Check:
                     disc += 1
                 else:
                     self.broken_obligation("theorem %s depends on non-stdlib axioms %r" % (name, ax), out[-2000:])
-        self.cov["discharged"] = disc
+        self.cov["discharged"] += disc
         self.cov["trusted_base"] += [
             "Coq 8.16.1 kernel (coqc; vm_compute used in refutation witnesses / sample re-evaluation; no native_compute)",
-            "axioms reported by Print Assumptions: " + (", ".join(sorted(axioms_used)) if axioms_used else "none (all theorems closed under the global context)"),
+            "axioms reported by Print Assumptions (Props/%s.v): " % name + (", ".join(sorted(axioms_used)) if axioms_used else "none (all theorems closed under the global context)"),
         ]
+        return disc == len(thms)
 
     def coqchk(self, libs):
         cmd = "timeout 1500 coqchk -silent -o -Q . AV " + " ".join(libs)
@@ -361,6 +402,7 @@ class Check:
 
     def finish(self):
         self.cov["distinct_nontrivial"] = len(self._distinct)
+        self.cov["trusted_base"] = list(dict.fromkeys(self.cov["trusted_base"]))
         ev = {"property_id": self.pid, "tier": self.tier, "seed": self.seed, "level": self.level,
               "coverage": self.cov, "assumptions": self.assumptions,
               "wall_s": round(time.time() - self.t0, 2), "violations": max(len(self.violations), getattr(self, "nviol", 0))}
